@@ -34,11 +34,10 @@ func run(rt *rapid.T) {
 	m = wmkit.New(db, func(f string, a ...any) {
 		rt.Fatalf("%s\nhistory: %s", fmt.Sprintf(f, a...), m.History())
 	})
-	m.RT = rt
 	pool := wmkit.GenKeyPool(rt, gen.Uniform(rt, 2, 12, "npool"))
 	unique := wmkit.UniqueValues(rt)
 	counter := 0
-	reweighed, readded := false, false
+	readded := false
 	steps := gen.Uniform(rt, 5, 40, "steps")
 	collapsedBelow := false // a commit with a small collapse level happened
 	touchedAfterCollapse, reloaded, sameValueCollapsed, deleteAfterCollapse := false, false, false, false
@@ -57,20 +56,9 @@ func run(rt *rapid.T) {
 				continue
 			}
 			e := gen.Pick(rt, es, "same")
-			if gen.Chance(rt, 50, "weightonly") {
-				// the value bytes stay, only the weight changes
-				w := wmkit.GenWeight(rt)
-				if w == e.Weight {
-					w++
-				}
-				m.Reweigh(e, w)
-				reweighed = true
-				touchedAfterCollapse = touchedAfterCollapse || collapsedBelow
-			} else {
-				m.Logf("(rewrite same value)")
-				m.Rewrite(e)
-				sameValueCollapsed = sameValueCollapsed || collapsedBelow
-			}
+			m.Logf("(rewrite same value)")
+			m.Rewrite(e)
+			sameValueCollapsed = sameValueCollapsed || collapsedBelow
 		case k < 64:
 			es := wmkit.Entries(m.Model)
 			if len(es) == 0 {
@@ -135,7 +123,6 @@ func run(rt *rapid.T) {
 	add(deleteAfterCollapse, "delete-through-hash-ref")
 	add(sameValueCollapsed, "rewrite-same-value-collapsed")
 	add(reloaded, "reload")
-	add(reweighed, "weight-only-update")
 	add(readded, "delete-and-re-add-identical")
 	add(len(es) == 0, "ends-empty")
 	add(len(es) == 1, "ends-single-entry")
